@@ -909,7 +909,35 @@ func TestVX_C17bus(t *testing.T) {
 		}
 	}
 	vxChipDefs = saved
+	// wide chips: fan channels with two digits (12-header hubs), sparse channel sets that mix one- and two-digit numbers
+	if !replay {
+		wide := [][]vxShape{
+			{{Fans: []int{1, 2, 10, 11, 12}, Temps: [3]int{1, 0, 0}}, {Fans: []int{1}, Temps: [3]int{1, 0, 0}}},
+			{{Fans: []int{2, 10, 11}, Temps: [3]int{1, 0, 0}}, {Fans: []int{1, 12}, Temps: [3]int{0, 1, 0}}},
+		}
+		var wsels []vxSel
+		for _, by := range []string{"index", "rpmChannel"} {
+			for _, nn := range []int{1, 2, 3, 4, 5, 10, 11, 12} {
+				wsels = append(wsels, vxSel{Kind: "fan", Pattern: "full", By: by, N: nn}, vxSel{Kind: "fan", Pattern: "full", By: by, N: nn, Pwm: 10})
+			}
+		}
+		for _, shapes := range wide {
+			for _, sel := range wsels {
+				for _, order := range vxPerms(2) {
+					idx++
+					if !mc.Mine(idx) {
+						continue
+					}
+					vxDirs = map[string]string{}
+					c := vxCase{Shapes: shapes, Order: order, Sel: sel}
+					st.check(&c, vxRefBind(shapes, sel), vxRunReal(&c))
+					n++
+				}
+			}
+		}
+	}
 	rep.Evaluations = n
 	rep.AddDistinct(n)
+	rep.Note("wide chips: fan channels {1,2,10,11,12} and {2,10,11} next to a chip with fans {1} / {1,12}; fan entries by index 1..5,10..12 and rpmChannel 1..5,10..12, pwmChannel default or 10; both enumeration orders")
 	rep.Note("bus families: 4 chips of one driver differing in bus number/address (scsi, hid, isa, pci, acpi+virtual); each chip named by its full lm-sensors name (plain and ^anchored$), sensor index 1..3, fan by index / rpmChannel, all 24 enumeration orders")
 }
